@@ -148,6 +148,16 @@ func labels(c Case) []string {
 	} else {
 		l = append(l, "linear")
 	}
+	switch n := len(c.Seq); {
+	case n >= 2700:
+		l = append(l, "length 2700..3000")
+	case n >= 1000:
+		l = append(l, "length 1000..2699")
+	case n > 300:
+		l = append(l, "length 301..999")
+	default:
+		l = append(l, "length 20..300")
+	}
 	if !L.Valid {
 		return append(l, "discarded: "+L.Why)
 	}
@@ -243,21 +253,43 @@ func gen(t *rapid.T) Case {
 			return rapid.IntRange(2*span, 2*span+60).Draw(t, fmt.Sprintf("gap%d", i))
 		}
 	}
-	var b strings.Builder
+	var pieces []string // filler, site, filler, site, ..., filler
 	for i := 0; i < nsites; i++ {
-		b.WriteString(filler(t, fmt.Sprintf("filler%d", i), gap(i), e))
+		pieces = append(pieces, filler(t, fmt.Sprintf("filler%d", i), gap(i), e))
 		fwd := i%2 == 0
 		if !paired || rapid.IntRange(0, 4).Draw(t, fmt.Sprintf("site%d_flip", i)) == 0 {
 			fwd = rapid.Bool().Draw(t, fmt.Sprintf("site%d_forward", i))
 		}
 		if fwd {
-			b.WriteString(e.Site)
+			pieces = append(pieces, e.Site)
 		} else {
-			b.WriteString(ref.RevComp(e.Site))
+			pieces = append(pieces, ref.RevComp(e.Site))
 		}
 	}
-	b.WriteString(filler(t, "filler_end", gap(nsites), e))
-	s := b.String()
+	pieces = append(pieces, filler(t, "filler_end", gap(nsites), e))
+	// one layout in four is stretched to a chosen total length (the top of the range, an edge size or
+	// any length to 3000) by lengthening one gap, so that long parts occur with sites anywhere in them
+	if rapid.IntRange(0, 3).Draw(t, "stretch") == 0 {
+		total := 0
+		for _, p := range pieces {
+			total += len(p)
+		}
+		var target int
+		switch rapid.IntRange(0, 2).Draw(t, "target_class") {
+		case 0:
+			target = rapid.IntRange(2700, 3000).Draw(t, "target_top")
+		case 1:
+			e := vk.EdgeSizes(500, 3000)
+			target = e[rapid.IntRange(0, len(e)-1).Draw(t, "target_edge")]
+		default:
+			target = rapid.IntRange(300, 3000).Draw(t, "target")
+		}
+		if extra := target - total; extra > 0 {
+			j := 2 * rapid.IntRange(0, nsites).Draw(t, "stretched_gap")
+			pieces[j] += vk.Fill(rapid.Uint64().Draw(t, "stretch_fill"), extra, "ACGT")
+		}
+	}
+	s := strings.Join(pieces, "")
 	for len(s) < 20 {
 		s += filler(t, "pad", 20-len(s), e)
 	}
